@@ -483,7 +483,7 @@ def check(pid, tier, profile, mc_quick, mc_thorough, dump_cfg, n_quick=36, n_tho
             args = ["-mode", "gen", "-profile", profile, "-seed", str(lib.seed()), "-n", str(nh)]
             rep = lib.run_report([binp] + args + ["-out", trace], timeout=3000)
             lib.log("[%s] %d histories, %d statements recorded in %.1fs" % (pid, nh, rep["cases"], time.time() - t0))
-            stats = judge_trace(pid, binp, args, trace, v, scd, per_chunk=5 if quick else 10, procs=8 if quick else 12)
+            stats = judge_trace(pid, binp, args, trace, v, scd, per_chunk=(nh + 4) // 5 if quick else 10, procs=5 if quick else 12)
             lib.log("[%s] validated: %d disagreement(s), %d in projection, %d signature(s), %.1fs"
                     % (pid, stats["mismatches"], stats["in_projection"], len(stats["signatures"]), time.time() - t0))
             extra = rep["extra"]
